@@ -1003,18 +1003,24 @@ class Interp:
                 ms.maybe_pending = True
 
     # --------------------------------------------------------- set resolution
+    async def ensure_known(self, sess, ms):
+        """Under sparse probing a delivery may not have been looked at by the observer yet while a session has already
+        been told its UID: before a command of that session is resolved against the model, the observer looks (this is
+        the one place where the model asks the server - through the ordinary comparison - rather than guess from a
+        view whose cells may be stale)."""
+        box = ms.selected
+        if not self.compare or box is None or box.uncertain or sess.view is None:
+            return
+        if any(m.uid is None for m in box.msgs) and any(c is not None for c, m in zip(sess.view, box.msgs) if m.uid is None):
+            self.ctx.probe("bind_before_resolve")
+            await self.compare_box(box, why="bind")
+
     def resolve_set(self, sess, ms, op):
         """-> (set text, list of target uids | None if unknown, valid: bool)"""
         st = op.get("set") or {"all": True}
         uidcmd = bool(op.get("uid"))
         view = sess.view or []
         box = ms.selected
-        if self.compare and box is not None and not box.uncertain and self.view_synced(sess, box):
-            # what the session has been told about the messages it can see is what the model knows, too (under
-            # sparse probing a delivery may not have been looked at by the observer yet)
-            # (only a UID above every UID the model has seen there: a stale cell of a session with EXPUNGEs
-            # pending holds the UID of a message that is gone)
-            self.learn_uids(sess, box, fresh_only=True)
         if "raw" in st:
             return st["raw"], None, None
         if "all" in st:
@@ -1205,8 +1211,12 @@ class Interp:
     def learn_uids(self, sess, box, fresh_only=False):
         for cell, m in zip(sess.view or [], box.msgs):
             if cell is not None and m.uid is None:
-                if fresh_only and cell <= box.max_uid:
-                    return
+                if fresh_only:
+                    # (a stale cell of a session with EXPUNGEs pending holds the UID of a message that is gone: the
+                    # ledger knows that UID with another message)
+                    t_ = box.ledger.get(cell)
+                    if (t_ is not None and t_ != m.tok) or any(x.uid is not None and x.uid >= cell for x in box.msgs):
+                        return
                 m.uid = cell
                 box.max_uid = max(box.max_uid, cell)
 
@@ -1325,6 +1335,7 @@ class Interp:
             r = await self.run_cmd(sess, ms, f"{'UID ' if op.get('uid') else ''}STORE 1 {item} ({' '.join(flags)})")
             self.C("c06_state_refusal")
             return
+        await self.ensure_known(sess, ms)
         txt, uids, valid = self.resolve_set(sess, ms, op)
         synced = self.view_synced(sess, box)
         pend_before = ms.maybe_pending
@@ -1410,6 +1421,12 @@ class Interp:
                     hit = [f for (n, uid), f in told.items() if uid == m.uid or (uid is None and sess.view and 1 <= n <= len(sess.view) and sess.view[n - 1] == m.uid)]
                     if not hit:
                         self.V("C04", "store_response_missing", uid=m.uid, cmd=f"STORE {txt} {item}")
+                    elif m.amb and (hit[-1] ^ m.flags) == {"\\seen"}:
+                        # split delivery that the server looked at between the agent's two steps: it told this
+                        # session which of the two legitimate values it has
+                        self.ctx.probe("split_delivery_observed_midway")
+                        m.amb = False
+                        m.flags = hit[-1]
                     elif hit[-1] != m.flags:
                         self.V("C04", "store_response_wrong", uid=m.uid, told=sorted(hit[-1]), model=sorted(m.flags), cmd=f"STORE {txt} {item}")
         self.others_changed(box, sess.sid)
@@ -1424,6 +1441,7 @@ class Interp:
         if box is None:
             await self.run_cmd(sess, ms, f"{'UID ' if op.get('uid') else ''}FETCH 1 {items}")
             return
+        await self.ensure_known(sess, ms)
         txt, uids, valid = self.resolve_set(sess, ms, op)
         vlen = list(sess.view or [])  # (the whole view: an EXPUNGE plus an EXISTS leave the length unchanged)
         pre_view = set(c for c in (sess.view or []) if c is not None)
@@ -1762,6 +1780,7 @@ class Interp:
         cmd = "EXPUNGE"
         restrict = None
         if op.get("uidset") is not None:
+            await self.ensure_known(sess, ms)
             txt, restrict, _ = self.resolve_set(sess, ms, {"uid": True, "set": op["uidset"]})
             cmd = f"UID EXPUNGE {txt}"
             if getattr(ms, "sel_uvv", None) is not None and restrict is not None and "all" not in op["uidset"] and "raw" not in op["uidset"]:
@@ -1834,6 +1853,7 @@ class Interp:
         if box is None:
             await self.run_cmd(sess, ms, f"{'UID ' if op.get('uid') else ''}{verb} 1 {spell(dstname, op)}")
             return
+        await self.ensure_known(sess, ms)
         txt, uids, valid = self.resolve_set(sess, ms, op)
         vlen = list(sess.view or [])  # (the whole view: an EXPUNGE plus an EXISTS leave the length unchanged)
         view_before = list(sess.view or [])
@@ -2412,7 +2432,10 @@ class Interp:
             names_after = names_before - {norm_mbox_name(victim["name"].lstrip("/"))}
         if vop in ("rename", "create", "delete"):
             self.C("c12_inflight_namespace")
-            got = set(listed)
+            # (a SPECIAL-USE mailbox that is missing at start-up is created again: allowed by the statement)
+            got = set(listed) - SPECIAL_USE
+            names_before -= SPECIAL_USE
+            names_after -= SPECIAL_USE
             if got != names_before and got != names_after and got != (names_before | names_after if vop == "create" else None):
                 self.V("C12", "restart_changed_list", inflight=vop, neither_old_nor_new=True, extra=sorted(got - names_before - names_after)[:6],
                        missing=sorted((names_before & names_after) - got)[:6])
@@ -3321,6 +3344,7 @@ class EnvelopeOps:
         sess, ms = self.sess(op)
         if sess is None or ms.dead or ms.selected is None:
             return
+        await self.ensure_known(sess, ms)
         txt, uids, valid = self.resolve_set(sess, ms, op)
         r = await self.run_cmd(sess, ms, f"{'UID ' if op.get('uid') else ''}FETCH {txt} (UID ENVELOPE BODY.PEEK[] BODYSTRUCTURE RFC822.SIZE)")
         if r.status is None or not r.ok:
